@@ -1135,6 +1135,8 @@ class FuncTranslator:
         callee = self.ix.byid.get(cid)
         if callee is None or not _has_body(callee):
             self.fail(f"call of `{name}` whose definition is not available", n)
+        if callee.get("virtual") or callee.get("pure"):
+            self.fail(f"call of the virtual function `{name}` (dynamic dispatch)", n)
         if n.get("kind") == "CXXMemberCallExpr":
             obj = _strip(n["inner"][0]["inner"][0])
             ok = obj.get("kind") == "CXXThisExpr" or (
@@ -1188,6 +1190,8 @@ class FuncTranslator:
                 self.fail("reference without initialiser", d)
             ctx.alias[d["id"]] = self.lvalue(inner[0], ctx)
             return
+        if d.get("storageClass") or d.get("tls"):
+            self.fail(f"local variable `{d.get('name')}` with storage class {d.get('storageClass') or d.get('tls')}", d)
         if t.kind not in ("int", "bool", "vec2"):
             self.fail(f"local variable `{d.get('name')}` of type {t!r}", d)
         loc = "v:" + d["id"]
